@@ -146,7 +146,18 @@ def as_api_arg(b):
 
 
 def unx_arg(s):
-    return as_api_arg(unx(s))
+    """first character: `x` = the hash of the value decides between text and bytes, `s` = text (when the value is
+    UTF-8), `b` = bytes.  The model reads all three alike."""
+    v = unx(s)
+    if s[0] == "b":
+        return v
+    if s[0] == "s":
+        try:
+            t = v.decode("utf-8")
+            return t if t.encode("utf-8") == v else v
+        except UnicodeDecodeError:
+            return v
+    return as_api_arg(v)
 
 
 def unx_arg_list(s):
@@ -177,11 +188,39 @@ def opt_nat(s):
     return None if s == "-" else int(s)
 
 
+# Documented defaults of the public API (signatures of the pinned tree).  Callers rely on them, so an argument that
+# equals its documented default is omitted from every other call: a changed default then shows as a changed answer.
+DEFAULTS = {
+    "add_page": {"crawled": False}, "add_pages": {"crawled": False},
+    "get_page_degree": {"weighted": False}, "get_page_indegree": {"weighted": False}, "get_page_outdegree": {"weighted": False},
+    "get_page_links": {"include_inbound": True, "include_internal": True, "include_outbound": True},
+    "get_webentities_inlinks": {"include_auto": False}, "get_webentities_outlinks": {"include_auto": False},
+    "get_webentities_links": {"include_auto": False, "out": True}, "get_webentities_links_iter": {"include_auto": False, "out": True},
+    "get_webentities_links_slow": {"include_auto": False, "out": True}, "get_webentities_links_slow_iter": {"include_auto": False, "out": True},
+    "get_webentity_most_linked_pages": {"max_depth": None, "pages_count": 10},
+    "get_webentity_most_linked_pages_iter": {"max_depth": None, "pages_count": 10},
+    "get_webentity_pagelinks": {"include_inbound": False, "include_internal": True, "include_outbound": False},
+    "get_webentity_pagelinks_iter": {"include_inbound": False, "include_internal": True, "include_outbound": False},
+    "links_iter": {"out": True},
+    "paginate_webentity_pagelinks": {"include_internal": True, "include_outbound": False, "pagination_token": None, "source_page_count": None},
+    "paginate_webentity_pages": {"crawled_only": False, "page_count": None, "pagination_token": None},
+}
+_KW_CALLS = [0]
+
+
+def kw(name, **k):
+    _KW_CALLS[0] += 1
+    if _KW_CALLS[0] % 2:
+        return k
+    d = DEFAULTS.get(name, {})
+    return {a: v for a, v in k.items() if not (a in d and d[a] == v and type(d[a]) is type(v))}
+
+
 def parse_rules(s):
     out = {}
     for ar in split_list(s):
         a, r = ar.split("=")
-        out[unx(a)] = RULES[r]
+        out[unx_arg(a)] = RULES[r]          # rule anchors are given as text or as bytes, like any LRU
     return out
 
 
@@ -272,6 +311,7 @@ class Impl(object):
         t = self.t
         if op == "init":
             self.close()
+            _KW_CALLS[0] = 0
             del FULL_LOG[:]
             self.backend = w[1]
             self.dflt = RULES[w[2]]
@@ -340,9 +380,9 @@ class Impl(object):
                 mv(unx_arg(w[1]), int(w[2]), int(w[3]))
             return "ok"
         if op == "addpage":
-            return render_report(t.add_page(unx_arg(w[1]), crawled=(w[2] == "1")))
+            return render_report(t.add_page(unx_arg(w[1]), **kw("add_page", crawled=(w[2] == "1"))))
         if op == "addpages":
-            return render_report(t.add_pages(unx_arg_list(w[1]), crawled=(w[2] == "1")))
+            return render_report(t.add_pages(unx_arg_list(w[1]), **kw("add_pages", crawled=(w[2] == "1"))))
         if op == "addlinks":
             links = [tuple(unx_arg(x) for x in st.split(">")) for st in split_list(w[1])]
             return render_report(t.add_links(links))
@@ -351,7 +391,7 @@ class Impl(object):
             if w[1] != "-":
                 for e in w[1].split(";"):
                     a, ts = e.split(">")
-                    data[unx(a)] = [unx_arg(x) for x in ts.split(",")] if ts else []
+                    data[unx_arg(a)] = [unx_arg(x) for x in ts.split(",")] if ts else []
             return render_report(t.index_batch_crawl(data))
         if op == "?":
             return self._query(w[1:])
@@ -383,7 +423,7 @@ class Impl(object):
                 if args[0] != "-":
                     for e in args[0].split(";"):
                         a, ts = e.split(">")
-                        data[unx(a)] = [unx(x) for x in ts.split(",")] if ts else []
+                        data[unx_arg(a)] = [unx_arg(x) for x in ts.split(",")] if ts else []
                 g, render = t.index_batch_crawl_iter(data, 1), render_report
             elif kind == "rule":
                 g, render = t.add_webentity_creation_rule_iter(unx_arg(args[0]), RULES[args[1]]), render_report
@@ -391,28 +431,34 @@ class Impl(object):
                 g = t.get_webentity_pages_iter(int(args[0]), unx_arg_list(args[1]))
                 render = lambda r: "ok " + brack([hx(p["lru"]) + ":" + b01(p["crawled"]) for p in r])  # noqa
             elif kind == "net":
-                g = t.get_webentities_links_iter(out=(args[0] == "1"), include_auto=(args[1] == "1"))
+                self.net_calls = getattr(self, "net_calls", 0) + 1
+                if self.net_calls % 2:           # the direction-named generator wrappers are the same request
+                    f = t.get_webentities_outlinks_iter if args[0] == "1" else t.get_webentities_inlinks_iter
+                    g = f(**kw("get_webentities_outlinks", include_auto=(args[1] == "1")))
+                else:
+                    g = t.get_webentities_links_iter(**kw("get_webentities_links_iter", out=(args[0] == "1"), include_auto=(args[1] == "1")))
                 render = render_graph
             elif kind == "crawled":
                 g = t.get_webentity_crawled_pages_iter(int(args[0]), unx_arg_list(args[1]))
                 render = lambda r: "ok " + brack([hx(p["lru"]) + ":" + b01(p["crawled"]) for p in r])  # noqa
             elif kind == "mostlinked":
-                g = t.get_webentity_most_linked_pages_iter(int(args[0]), unx_arg_list(args[1]), pages_count=int(args[2]),
-                                                           max_depth=opt_nat(args[3]))
+                g = t.get_webentity_most_linked_pages_iter(int(args[0]), unx_arg_list(args[1]), **kw(
+                    "get_webentity_most_linked_pages_iter", pages_count=int(args[2]), max_depth=opt_nat(args[3])))
                 render = lambda r: "ok " + brack(["%s:%d" % (hx(p["lru"]), p["indegree"]) for p in r])  # noqa
             elif kind == "children":
                 g = t.get_webentity_child_webentities_iter(int(args[0]), unx_arg_list(args[1]))
                 render = lambda r: "ok " + brack([str(x) for x in sorted(r)])  # noqa
             elif kind == "pagelinks":
-                g = t.get_webentity_pagelinks_iter(int(args[0]), unx_arg_list(args[1]), include_inbound=(args[2] == "1"),
-                                                   include_internal=(args[3] == "1"), include_outbound=(args[4] == "1"))
+                g = t.get_webentity_pagelinks_iter(int(args[0]), unx_arg_list(args[1]), **kw(
+                    "get_webentity_pagelinks_iter", include_inbound=(args[2] == "1"), include_internal=(args[3] == "1"),
+                    include_outbound=(args[4] == "1")))
                 render = lambda r: "ok " + render_links(r)  # noqa
             elif kind in ("weout", "wein"):
                 f = t.get_webentity_outlinks_iter if kind == "weout" else t.get_webentity_inlinks_iter
                 g = f(int(args[0]), unx_arg_list(args[1]))
                 render = lambda r: "ok " + brack([str(x) for x in sorted(0 if x is None else x for x in r)])  # noqa
             elif kind == "netslow":
-                g = t.get_webentities_links_slow_iter(out=(args[0] == "1"), include_auto=(args[1] == "1"))
+                g = t.get_webentities_links_slow_iter(**kw("get_webentities_links_slow_iter", out=(args[0] == "1"), include_auto=(args[1] == "1")))
                 render = render_graph
             else:
                 return "bad-op"
@@ -509,27 +555,43 @@ class Impl(object):
             r = t.get_webentity_crawled_pages(int(w[1]), unx_arg_list(w[2]))
             return "ok " + brack([hx(p["lru"]) + ":" + b01(p["crawled"]) for p in r])
         if q == "paginate":
-            r = t.paginate_webentity_pages(int(w[1]), unx_arg_list(w[2]), page_count=opt_nat(w[3]),
-                                           pagination_token=None if w[4] == "-" else w[4], crawled_only=(w[5] == "1"))
+            r = t.paginate_webentity_pages(int(w[1]), unx_arg_list(w[2]), **kw(
+                "paginate_webentity_pages", page_count=opt_nat(w[3]), pagination_token=None if w[4] == "-" else w[4],
+                crawled_only=(w[5] == "1")))
             return "ok done=%s count=%d crawled=%d pages=%s token=%s" % (
                 b01(r["done"]), r["count"], r["count_crawled"],
                 brack([hx(p["lru"]) + ":" + b01(p["crawled"]) for p in r["pages"]]), r.get("token", "-"))
         if q == "mostlinked":
-            r = t.get_webentity_most_linked_pages(int(w[1]), unx_arg_list(w[2]), pages_count=int(w[3]),
-                                                  max_depth=opt_nat(w[4]))
+            r = t.get_webentity_most_linked_pages(int(w[1]), unx_arg_list(w[2]), **kw(
+                "get_webentity_most_linked_pages", pages_count=int(w[3]), max_depth=opt_nat(w[4])))
             return "ok " + brack(["%s:%d" % (hx(p["lru"]), p["indegree"]) for p in r])
         if q == "parents":
             return "ok " + brack([str(x) for x in sorted(t.get_webentity_parent_webentities(int(w[1]), unx_arg_list(w[2])))])
         if q == "children":
+            self.child_calls = getattr(self, "child_calls", 0) + 1
+            if self.child_calls % 2 == 0:
+                # the same request through its generator, advanced one yield at a time with other traversals in between
+                g = t.get_webentity_child_webentities_iter(int(w[1]), unx_arg_list(w[2]))
+                res = None
+                for k, st in enumerate(g):
+                    if st.done:
+                        res = st.result
+                        break
+                    if k < 30:
+                        for j, _ in enumerate(t.lru_trie.dfs_iter()):
+                            if j > 3:
+                                break
+                return "ok " + brack([str(x) for x in sorted(res)])
             return "ok " + brack([str(x) for x in sorted(t.get_webentity_child_webentities(int(w[1]), unx_arg_list(w[2])))])
         if q == "pagelinks":
-            r = t.get_webentity_pagelinks(int(w[1]), unx_arg_list(w[2]), include_inbound=(w[3] == "1"),
-                                          include_internal=(w[4] == "1"), include_outbound=(w[5] == "1"))
+            r = t.get_webentity_pagelinks(int(w[1]), unx_arg_list(w[2]), **kw(
+                "get_webentity_pagelinks", include_inbound=(w[3] == "1"), include_internal=(w[4] == "1"),
+                include_outbound=(w[5] == "1")))
             return "ok " + render_links(r)
         if q == "paginatelinks":
-            r = t.paginate_webentity_pagelinks(int(w[1]), unx_arg_list(w[2]), include_internal=(w[3] == "1"),
-                                               include_outbound=(w[4] == "1"), source_page_count=opt_nat(w[5]),
-                                               pagination_token=None if w[6] == "-" else w[6])
+            r = t.paginate_webentity_pagelinks(int(w[1]), unx_arg_list(w[2]), **kw(
+                "paginate_webentity_pagelinks", include_internal=(w[3] == "1"), include_outbound=(w[4] == "1"),
+                source_page_count=opt_nat(w[5]), pagination_token=None if w[6] == "-" else w[6]))
             return "ok done=%s sources=%d links=%s token=%s" % (
                 b01(r["done"]), r["count_sourcepages"], render_links(r["pagelinks"]), r.get("token", "-"))
         if q in ("weout", "wein"):
@@ -541,21 +603,21 @@ class Impl(object):
             return "ok " + brack([str(t.get_webentity_indegree(int(w[1]), ps)), str(t.get_webentity_outdegree(int(w[1]), ps)),
                                   str(t.get_webentity_degree(int(w[1]), ps))])
         if q == "pagelinksof":
-            r = t.get_page_links(unx_arg(w[1]), include_inbound=(w[2] == "1"), include_internal=(w[3] == "1"),
-                                 include_outbound=(w[4] == "1"))
+            r = t.get_page_links(unx_arg(w[1]), **kw("get_page_links", include_inbound=(w[2] == "1"), include_internal=(w[3] == "1"),
+                                                       include_outbound=(w[4] == "1")))
             return "ok " + render_links(r)
         if q == "pagedeg":
             f = {"in": t.get_page_indegree, "out": t.get_page_outdegree, "deg": t.get_page_degree}[w[2]]
-            return "ok %d" % f(unx_arg(w[1]), weighted=(w[3] == "1"))
+            return "ok %d" % f(unx_arg(w[1]), **kw("get_page_degree", weighted=(w[3] == "1")))
         if q == "network":
             out, auto, slow = w[1] == "1", w[2] == "1", w[3] == "1"
             self.net_calls = getattr(self, "net_calls", 0) + 1
             if slow:
-                g = t.get_webentities_links_slow(out=out, include_auto=auto)
+                g = t.get_webentities_links_slow(**kw("get_webentities_links_slow", out=out, include_auto=auto))
             elif self.net_calls % 2:           # the direction-named wrappers are the same request
-                g = (t.get_webentities_outlinks if out else t.get_webentities_inlinks)(include_auto=auto)
+                g = (t.get_webentities_outlinks if out else t.get_webentities_inlinks)(**kw("get_webentities_outlinks", include_auto=auto))
             else:
-                g = t.get_webentities_links(out=out, include_auto=auto)
+                g = t.get_webentities_links(**kw("get_webentities_links", out=out, include_auto=auto))
             return render_graph(g)
         if q == "expand":
             res = t.expand_prefix(unx_arg(w[1]))
@@ -571,12 +633,36 @@ class Impl(object):
                 res.sort(reverse=True)
                 del res[1:]
             return out
+        # The enumerations are plain generators: a caller consumes them lazily and may ask other read-only questions
+        # in between.  Every other call does so (the answers must not depend on it).
+        self.lazy_calls = getattr(self, "lazy_calls", 0) + 1
+        nest = self.lazy_calls % 2 == 0
         if q == "linksiter":
-            return "ok " + brack(sorted(hx(a) + ">" + hx(b) for a, b in t.links_iter(out=(w[1] == "1"))))
+            out = []
+            for k, (a, b) in enumerate(t.links_iter(**kw("links_iter", out=(w[1] == "1")))):
+                out.append(hx(a) + ">" + hx(b))
+                if nest and k < 40:
+                    t.get_page_links(a if k % 2 else b)
+                    if k % 3 == 0:
+                        next(iter(t.links_iter(out=(w[1] != "1"))), None)
+            return "ok " + brack(sorted(out))
         if q == "pagesiter":
-            return "ok " + brack([hx(lru) + ":" + b01(node.is_crawled()) for node, lru in t.pages_iter()])
+            out = []
+            for k, (node, lru) in enumerate(t.pages_iter()):
+                out.append(hx(lru) + ":" + b01(node.is_crawled()))
+                if nest and k < 25 and k % 2 == 0:
+                    for _ in t.webentity_prefix_iter():
+                        pass
+            return "ok " + brack(out)
         if q == "prefixiter":
-            return "ok " + brack(["%s:%d" % (hx(lru), node.webentity()) for node, lru in t.webentity_prefix_iter()])
+            out = []
+            for k, (node, lru) in enumerate(t.webentity_prefix_iter()):
+                out.append("%s:%d" % (hx(lru), node.webentity()))
+                if nest and k < 25 and k % 2 == 0:
+                    for j, _ in enumerate(t.pages_iter()):
+                        if j > 5:
+                            break
+            return "ok " + brack(out)
         if q == "counts":
             return "ok pages=%d crawled=%d links2=%d" % (t.count_pages(), t.count_crawled_pages(),
                                                          int(round(t.count_links() * 2)))
